@@ -2,7 +2,9 @@
 """print the prompt for a seeded-change sub-agent (gets ONLY the property text + its scratch worktree)"""
 import json, sys
 pid = sys.argv[1]
-p = next(json.loads(l) for l in open('/verif/properties.jsonl') if json.loads(l)['id'] == pid)
+base = pid.split('-')[0]
+avoid = sys.argv[2] if len(sys.argv) > 2 else None
+p = next(json.loads(l) for l in open('/verif/properties.jsonl') if json.loads(l)['id'] == base)
 print(f"""You are given a scratch git worktree of the Rust project rust-libp2p at /tmp/seed/{pid} (a throw-away copy: edit anything inside it). Work ONLY inside /tmp/seed/{pid} and /tmp/seed/{pid}-out. Do not read, list or touch /verif, /repo, or any other /tmp/seed/* directory. There is no network. Never run shell commands in the background (no run_in_background, no trailing &); give long commands an explicit timeout.
 
 The following semantic property is supposed to hold for this codebase:
@@ -17,10 +19,10 @@ YOUR TASK: craft ONE realistic change to the library source (not to tests) that 
   * it needs something SPECIFIC to manifest — a particular interleaving or order of events, a multi-step sequence of operations, an unusual or boundary input, a fault at a particular point, or two cooperating sites that each look fine alone. A change that ordinary use would expose at once is not wanted.
   * Files named verif_*.rs and items behind `cfg(libp2p_verif)` are test instrumentation: do not modify them and do not rely on them.
 
-Then write a DEMONSTRATION: a test (a new file under the crate's tests/ directory or a new #[test] in a new #[cfg(test)] module file) or a small example program that FAILS with your change and PASSES without it. Verify both directions yourself. Do NOT use `git stash` (the stash is shared between worktrees of the same repository and other agents use it concurrently); use `git diff > file` and `git apply -R file` instead.
+{{AVOID}}Then write a DEMONSTRATION: a test (a new file under the crate's tests/ directory or a new #[test] in a new #[cfg(test)] module file) or a small example program that FAILS with your change and PASSES without it. Verify both directions yourself. Do NOT use `git stash` (the stash is shared between worktrees of the same repository and other agents use it concurrently); use `git diff > file` and `git apply -R file` instead.
 
 DELIVER in /tmp/seed/{pid}-out/ :
   patch.diff   `git diff` of the library source change ONLY (apply-able with `git apply` at the worktree root; must not contain the demonstration)
   demo.diff    a second patch adding ONLY the demonstration test/program (apply-able on top of the unchanged tree as well as on top of patch.diff)
   notes.md     which crate; what the change is and why it breaks the property; exactly what is needed to make it manifest; the exact commands you ran (existing tests with the change: result; demo with the change: fails — paste the failing assertion; demo without the change: passes).
-Finish by leaving the worktree with BOTH patches applied. Reply with a 10-line summary (crate, files changed, what manifests it, test results).""")
+Finish by leaving the worktree with BOTH patches applied. Reply with a 10-line summary (crate, files changed, what manifests it, test results).""".replace("{AVOID}", (f"IMPORTANT: another contributor has already produced a change for this property; theirs needs this to manifest: \"{avoid}\". Yours must be DIFFERENT IN KIND: break another clause of the property, or the same clause through a different code path / function, and need a different kind of trigger. Do not touch the same function.\n\n" if avoid else "")))
